@@ -42,8 +42,8 @@ func manyTermsBatch(t *rapid.T, label string) Batch {
 }
 
 func genAnyBatch(t *rapid.T, sc *Scenario, label string) (Batch, string) {
-	switch rapid.IntRange(0, 6).Draw(t, label+":kind") {
-	case 6:
+	switch rapid.IntRange(0, 7).Draw(t, label+":kind") {
+	case 6, 7:
 		b := manyTermsBatch(t, label)
 		return b, fmt.Sprintf("many-terms{%d docs x %d terms}", len(b), len(b[0].Fields[0].Terms))
 	case 0:
@@ -81,7 +81,7 @@ func c14Prop(st *CaseStats) func(t *rapid.T) {
 		for a := 0; a < nAct; a++ {
 			concurrent := false
 			prevOther := false
-			switch rapid.IntRange(0, 6).Draw(t, "action") {
+			switch rapid.IntRange(0, 7).Draw(t, "action") {
 			case 0, 1, 2:
 				ob, od := genAnyBatch(t, sc, "other")
 				om := rapid.SampledFrom(ChunkModes).Draw(t, "otherMode")
@@ -102,7 +102,7 @@ func c14Prop(st *CaseStats) func(t *rapid.T) {
 					}
 					labels = append(labels, "after-failed-build")
 				}
-			case 4:
+			case 4, 7:
 				hist += " GCx2"
 				runtime.GC()
 				runtime.GC()
